@@ -134,6 +134,57 @@ def run(prog):
                         "satisfied clauses come from the own-polarity table, shrunk clauses from the opposite one" if ok else
                         "the residual hash consults the tables %s: the clauses satisfied by a new literal (its own polarity) "
                         "and the clauses it shrinks (opposite polarity) are both needed, one pass over each" % sides))
+    out += wp3(prog)
     if n < 20:
         raise CheckerError("WP: only %d polar table accesses recognised (expected >= 20)" % n)
+    return out
+
+
+def wp3(prog):
+    """WP3  update_hash_and_sat_set advances the residual hash from one base state S to `new_model`.  Every use of
+    the base must be the same S: the hash and the satisfied-set accumulators are seeded from S, the newly assigned
+    literals are `new_model.difference(S.model)`, and a literal of a newly satisfied clause counts as 'still in the
+    residual clause' iff it is unset *in S* — every model query that guards a hash update has S.model as receiver
+    (new_model has all of this step's literals set, so asking it would leave their primes out)."""
+    out = []
+    for fn in prog.find(name="update_hash_and_sat_set", self_adt="repr::unit_prop::SATSolver", unit="rsdd-lib"):
+        te = fn.terms
+        base = None
+        errs = []
+
+        def is_base(t, fld):
+            t = strip(t)
+            return isinstance(t, tuple) and t[0] == "field" and t[2] == fld and mir.is_call(strip(t[1]), "top_state")
+        seeds = {fn.local_name(l): v for (h, l), v in te.mu_init.items() if fn.local_name(l) in ("hash", "new_set")
+                 and strip(v)[0] != "mu"}
+        if not is_base(seeds.get("hash", ()), "hash"):
+            errs.append("the hash accumulator is seeded with %s, not with the base state's hash" % show(seeds.get("hash", ("top",)))[:40])
+        sv = strip(seeds.get("new_set", ("top",)))
+        while mir.is_call(sv, "clone"):
+            sv = strip(sv[2][0])
+        if not is_base(sv, "sat_clauses"):
+            errs.append("the satisfied-set accumulator is seeded with %s, not with the base state's set" % show(sv)[:40])
+        diffs = [cs for cs in te.calls if cs.callee.name == "difference" and "PartialModel" in cs.callee.key()]
+        if not diffs:
+            errs.append("no difference between the new model and the base model")
+        for cs in diffs:
+            if strip(cs.args[0]) != ("param", 2) or not is_base(cs.args[1], "model"):
+                errs.append("line %d: newly assigned literals are %s \\ %s, expected new_model \\ base.model"
+                            % (cs.line, show(cs.args[0])[:30], show(cs.args[1])[:30]))
+        nq = 0
+        for cs in te.calls:
+            if cs.callee.name not in ("wrapping_mul", "mul", "wrapping_div", "div"):
+                continue
+            for c, val, _, _ in te.facts_at(cs.bb):
+                c = strip(c)
+                if c[0] == "call" and "PartialModel" in c[1].key() and c[1].name in ("is_set", "get", "lit_implied", "lit_neg_implied"):
+                    nq += 1
+                    if not is_base(c[2][0], "model"):
+                        errs.append("line %d: the hash update is guarded by %s: the model asked is not the base state's model, so "
+                                    "literals assigned in this very step are treated as already accounted for"
+                                    % (cs.line, show(c)[:70]))
+        if nq == 0:
+            errs.append("no model query guards the hash update of a newly satisfied clause")
+        out.append(inst("WP", "%s:WP3:one-base-state" % fn.npath, VIOLATION if errs else OK, fn, None,
+                        "; ".join(errs) if errs else "hash, satisfied set, difference and the 'still unassigned' test all refer to top_state()"))
     return out
